@@ -28,6 +28,12 @@ ASSUMPTIONS = ["astropy WCS all_pix2world/all_world2pix semantics",
                "contracts table (aegean_sa/units.py)"]
 
 MUTANTS = [
+    ("vector end point built in the caller's dtype", "AegeanTools/wcs_helpers.py",
+     "        a = (x + r * np.cos(np.radians(theta)),\n"
+     "             y + r * np.sin(np.radians(theta)))\n",
+     "        a = np.array(pixel)\n"
+     "        a[0] += r * np.cos(np.radians(theta))\n"
+     "        a[1] += r * np.sin(np.radians(theta))\n", "C16-R11"),
     ("sky2pix without the distortion terms", "AegeanTools/wcs_helpers.py",
      "        pixel = self.wcs.all_world2pix(",
      "        pixel = self.wcs.wcs_world2pix(", "C16-R10"),
@@ -157,6 +163,7 @@ def run(ctx):
     r8_quadrant(ctx, prog)
     r9_stateless(ctx, prog)
     r10_same_transformation(ctx, prog, ci)
+    r11_float_offsets(ctx, prog)
     from .. import precision
     precision.rule(
         ctx, prog, "C16-R6",
@@ -400,3 +407,23 @@ def r10_same_transformation(ctx, prog, ci, rule="C16-R10"):
                   (pres, c.func.attr, sorted({"%s_%s" % (a, b) for a, b, _, _
                                               in allsites} - {c.func.attr})),
                   node=c)
+
+
+def r11_float_offsets(ctx, prog):
+    from ..precision import inplace_on_inherited_dtype
+    ctx.rule("C16-R11", "vector / ellipse end points are computed in floating "
+             "point whatever the type of the pixel position given: no "
+             "in-place arithmetic on an array that inherits its dtype from "
+             "an argument (np.array(pixel); end[0] += r*cos(t) truncates for "
+             "integer pixel positions)")
+    n = 0
+    for q, fi in sorted(prog.functions.items()):
+        if not (fi.module.endswith("wcs_helpers") or
+                fi.module.endswith("angle_tools")):
+            continue
+        n += 1
+        bad = inplace_on_inherited_dtype(prog, fi)
+        ctx.check("C16-R11", fi, "floating-point offsets in " + fi.short,
+                  not bad, bad[0][1] if bad else "",
+                  node=bad[0][0] if bad else fi.node)
+    ctx.floor("C16-R11", n, 20, "functions of the conversion modules")
